@@ -44,3 +44,9 @@ claim('C15', 'Coq theorems (involutions, shortcut = definition, finite sweeps li
       'transform of the inner bytes / of the stream. Byte and bit order: involutions, bit reversal per byte (256 cases, kernel). Rotation: '
       'rotl8 inverse for every amount; rejection of non-multiples; amounts cancel. The multi-byte rotation branches and the compression '
       'codecs are decided by the oracle (big-integer rotation per group, amounts -64..64 x groups 1..8) and correspondence.', 'DESIGN.md 6/C15')
+claim('C10', 'Coq theorems over arbitrary field lists (bit/byte functions) and every width (interpreter level) + two-path correspondence + big-integer oracle',
+      'bits_fold_app / bits_fold_fields / pack_fields_bytes / unpack_fields_bits: for ANY sequence of field widths summing to a multiple of 8 '
+      'the packed bytes are the big-endian digits of the MSB-first concatenation of the patterns, and parse inverts it (no bound on widths or '
+      'field counts); bits2integer_bytes2bits and the BytesInteger = Bitwise(BitsInteger(8n)) law for every width. Both code paths (pre-read and '
+      'streaming) are run on the library and on the extracted model and compared with big-integer arithmetic, exhaustively for 8-bit regions.',
+      'DESIGN.md 6/C10')
